@@ -33,7 +33,7 @@ LEVEL_NOTE = ("Trusted: Lean kernel (propext, Classical.choice, Quot.sound), the
 RULE = ("typed command sequences over the documented command set rendered canonically on track A (lengths 1..192 incl. non-divisors, dots 0..3, frames incl. "
         "1/255/256/65535, octaves, all 30 key signatures + modifier lists, Q0..9, q0..200, shuffle +-, decimal/hex/signed numbers) with the AST sent along so that "
         "the spec oracle computes the intended pitches, durations, key-on times and totals; bounded-exhaustive families (all lengths x dots, all key signatures x "
-        "letters x accidentals, Q x short durations, number spellings); multi-track / multi-line / conditional-block layouts; a malformed stream (mutated and random "
+        "letters x accidentals, Q x short durations, number spellings, numbers at the ends of int in every place the reader computes with a parsed number); multi-track / multi-line / conditional-block layouts; a malformed stream (mutated and random "
         "lines); direct Track API call sequences. non-trivial = uses a tie, slur, reverse rest, grace, echo, shuffle, key signature, drum mode, dots or frames, "
         "more than one track or line, or is malformed; distinct by request text")
 EXPLANATION = ("theorems over Model/TrackBuilder + Model/Lexer + Model/Mml; correspondence on the events (and references for mmlr) of every track, the error "
@@ -316,8 +316,12 @@ CORPUS_TEXT = [
     ["A Q4 c:1"], ["A q5 s-30 c"], ["A s-30 c"], ["A l:0 q1 c"], ["A Q1 c64"],
     # D12
     ["*"], ["A ~"], ["A o4 l4 cdefgab >c ~"], ["A ~r4"], ["A ~1"], ["A D1 ~"], ["A o4 l4 cdefgab D1 ~"], ["* c"], ["*-1 c"], ["*x c"],
-    # int overflow sites (undefined behaviour)
+    # numbers at the ends of int: signed overflow (undefined behaviour) before fixes a16b488 / a22a11c, ordinary wrapping cases since
     ["A o2147483648 c"], ["A o-2147483647 < c"], ["A o200000000 c"], ["A (2147483648"], ["A c:2147483647."], ["A o2147483647 c"],
+    ["c:2147483647."], ["(2147483648"], ["o-2147483648"], ["o2147483647 c"], ["o-2147483647 <"], ["o2147483647 >>"],
+    ["A o-2147483648"], ["A o-2147483648 c"], ["A o-2147483647 <"], ["A o-2147483647 < < c"], ["A o2147483647 >>"], ["A o2147483647 >> c"],
+    ["A c:2147483647.."], ["A c:2147483647..."], ["A l:2147483647. c"], ["A (-2147483648"], ["A )2147483648"], ["A o178956971 c"], ["A o-178956971 c"],
+    ["A D40 o2147483647 c"], ["A o2147483647 ~c"], ["A c o2147483647 ~c:1."],
     # unit-test shapes
     ["A cdefgab>c"], ["A o4l4cdefgab>c"], ["A c4d8e16f32g2.a4..b4...", "A r4^4&c^8"], ["ABC {c/d+/g} {d/f/a}"], ["A [cd/ef]4 L gab"],
     ["A c4 r4 ^4"], ["A c4 v5 ^4"], ["A Q4 c4 v5 ^4"], ["A Q4 c4 v5 ^4 ^4"], ["A c4 & d4"], ["A r4 & d4"], ["A c4 ] R8"], ["A c4 R4"], ["A c4 R8"], ["A r4 R4"],
@@ -467,6 +471,14 @@ def cases(rng, tier):
                      "-9223372036854775809", "$ffffffff", "$100000004", "00000000000000000000004"]:
         for pre in ["A c", "A c:", "A o", "A l", "A v", "A ]", "A s", "A (", "*", "A *", "A \\=", "A \\=1,", "A q", "A Q"]:
             yield Case(text_case([pre + spelling + " d"]), ("exh-number", "number-spelling"), "exh-number")
+    # numbers at the ends of int in every place the reader computes with them (wrap since fixes a16b488 / a22a11c)
+    for v in [2147483647, 2147483646, 2147483648, -2147483648, -2147483647, -2147483649, 1073741824, 1073741823, -1073741824, 715827883, 178956971, 178956970,
+              -178956971, 357913942, 4294967295, 4294967296, 65536, 65535, 32768, -32768, -32769]:
+        for hexv in (False, True):
+            n = Num(v, hexv).text()
+            for pat in ["A o%s c", "A o%s < c", "A o%s > c", "A o%s >> c", "A o%s << c", "A o%s <", "A o%s >>", "A c:%s", "A c:%s.", "A c:%s..", "A c:%s...",
+                        "A l:%s. c", "A r:%s. ^:%s..", "A (%s", "A )%s", "A (%s )%s", "A D40 o%s c", "A o%s ~c", "A c R:%s.", "A \\:%s.", "A c%s.", "A l%s.. c"]:
+                yield Case(text_case([pat.replace("%s", n)]), ("exh-int-edge", "number-spelling"), "exh-int-edge")
     # ---- seeded random typed sequences (with AST)
     n = 9000 if quick else 60000
     for i in range(n):
